@@ -119,7 +119,7 @@ func VerifC05Journal() {
 	cur := w.verifReadImage()
 	imgBefore := [][]byte{append([]byte{}, cur[0]...), append([]byte{}, cur[1]...)}
 	mode := rt.Choose("journal.mode", 3)
-	which := rt.Choose("pages.written", 4) // page 1 / page 2 / both / both + a new page 3
+	which := rt.Choose("pages.written", 5) // page 1 / page 2 / both / both + a new page 3 / both, shrinking to one page
 	k := rt.Choose("crash.at", verifC05MaxOps)
 	n := 2
 	if which == 3 {
@@ -127,6 +127,10 @@ func VerifC05Journal() {
 	}
 	imgAfter := [][]byte{imgBefore[0], imgBefore[1]}
 	var writes []int
+	shrink := which == 4
+	if shrink {
+		n = 1
+	}
 	if which != 1 {
 		p1 := rt.Bytes("new", verifP)
 		// the transaction may be the one that switches the database to WAL mode (committed through the journal)
@@ -174,7 +178,14 @@ func VerifC05Journal() {
 		case 2:
 			must(db.WriteJournalAt(ctx, jf, make([]byte, SQLITE_JOURNAL_HEADER_SIZE), 0, 1))
 		}
+		if shrink {
+			// SQLite cuts the file once the journal is finalised
+			must(db.TruncateDatabase(ctx, verifP))
+		}
 	})
+	if shrink {
+		imgAfter = imgAfter[:1] // page 2 was overwritten during the transaction and is then freed
+	}
 	after := ltx.Pos{TXID: before.TXID + 1, PostApplyChecksum: verifSpecChecksum(imgAfter)}
 	if !crashed {
 		if k != verifC05MaxOps-1 {
